@@ -21,6 +21,9 @@ type ReadVariant struct {
 type ReadSchedScenario struct {
 	Model    *refts.Model  `json:"model"`
 	Variants []ReadVariant `json:"variants"`
+	// EnumBoundary > 0: in addition, one variant per offset 1..400 with a single read boundary
+	// there (reader kind and size option cycle with the offset, shifted by EnumBoundary)
+	EnumBoundary int `json:"enum_boundary,omitempty"`
 }
 
 type readSched struct{}
@@ -38,7 +41,7 @@ func (readSched) Runs(tier string) int64 {
 
 func (readSched) Meta() core.EngineMeta {
 	return core.EngineMeta{
-		Rule:       "One reference stream is read through many SimReaders that differ only in read schedule (fixed chunk sizes 1..400, seeded chunk lists, one chunk boundary at a seeded offset of the first 400 bytes, EOF delivered together with the last bytes), reader kind (seekable, real bufio.Reader, plain), packet size option (explicit or auto-detected) and framing (188+k bytes, k in {1..4,16}, explicit; auto-detected for 189..192). NextPacket and NextData sequences are compared with the canonical run (explicit 188, one big read); plain readers with auto-detection are compared with each other only (the library documents that it re-synchronises by consuming packets). evaluations = demux executions; distinct = (reader kind, auto, k, chunk-plan class, stream shape class); non-trivial = a read boundary fell inside a packet.",
+		Rule:       "One reference stream is read through many SimReaders that differ only in read schedule (fixed chunk sizes 1..400, seeded chunk lists, one chunk boundary at a seeded offset of the first 400 bytes - one run in forty tries every offset 1..400 -, EOF delivered together with the last bytes), reader kind (seekable, real bufio.Reader, plain), packet size option (explicit or auto-detected) and framing (188+k bytes, k in {1..4,16}, explicit; auto-detected for 189..192). NextPacket and NextData sequences are compared with the canonical run (explicit 188, one big read); plain readers with auto-detection are compared with each other only (the library documents that it re-synchronises by consuming packets). evaluations = demux executions; distinct = (reader kind, auto, k, chunk-plan class, stream shape class); non-trivial = a read boundary fell inside a packet.",
 		Real:       []string{"astits.Demuxer and everything below it", "bufio.Reader"},
 		Stub:       []string{"refts reference multiplexer and 188+k re-framer", "SimReader (short reads per plan)"},
 		FaultKinds: []string{"short-read", "one-byte-reads", "boundary-in-first-400", "eof-with-data", "kind-bufio", "kind-plain", "auto-detect", "frame-188+k"},
@@ -98,6 +101,9 @@ func (readSched) Generate(r *core.PRNG, tier string, idx int64) any {
 			}
 		}
 		sc.Variants = append(sc.Variants, v)
+	}
+	if idx%40 == 7 {
+		sc.EnumBoundary = 1 + r.Intn(6)
 	}
 	return sc
 }
@@ -181,7 +187,20 @@ func (readSched) Execute(scAny any, keepLog bool) *core.Outcome {
 	plainAuto := map[int]*seqResult{}
 	plainAutoV := map[int]ReadVariant{}
 	shape := fmt.Sprint(len(sc.Model.Streams), npk > 16)
-	for vi, v := range sc.Variants {
+	variants := sc.Variants
+	if sc.EnumBoundary > 0 {
+		kinds := []string{"seekable", "bufio", "plain"}
+		for off := 1; off <= 400; off++ {
+			x := off + sc.EnumBoundary
+			v := ReadVariant{Reader: world.ReaderPlan{Kind: kinds[x%3], Chunks: []int{off, 1 << 20}}, Auto: (x/3)%2 == 0}
+			if v.Reader.Kind == "bufio" {
+				v.Reader.BufioSize = []int{256, 4096}[(x/6)%2]
+			}
+			variants = append(variants, v)
+		}
+		out.Probe("every-boundary-of-the-first-400-bytes")
+	}
+	for vi, v := range variants {
 		if v.K < 0 || v.K > 64 {
 			continue
 		}
